@@ -683,6 +683,14 @@ func (eval Evaluator) MulRelinNew(op0 *rlwe.Ciphertext, op1 rlwe.Operand) (opOut
 
 func (eval Evaluator) tensorStandard(op0 *rlwe.Ciphertext, op1 *rlwe.Element[ring.Poly], relin bool, opOut *rlwe.Ciphertext) (err error) {
 
+	// The relinearisation key is looked up before anything is written: a missing key must leave the receiver intact
+	var rlk *rlwe.RelinearizationKey
+	if relin && op0.Degree() == 1 && op1.Degree() == 1 {
+		if rlk, err = eval.CheckAndGetRelinearizationKey(); err != nil {
+			return fmt.Errorf("cannot Tensor: cannot Relinearize: %w", err)
+		}
+	}
+
 	level := opOut.Level()
 
 	opOut.Scale = op0.Scale.Mul(op1.Scale)
@@ -735,12 +743,6 @@ func (eval Evaluator) tensorStandard(op0 *rlwe.Ciphertext, op1 *rlwe.Element[rin
 		}
 
 		if relin {
-
-			var rlk *rlwe.RelinearizationKey
-			var err error
-			if rlk, err = eval.CheckAndGetRelinearizationKey(); err != nil {
-				return fmt.Errorf("cannot Tensor: cannot Relinearize: %w", err)
-			}
 
 			tmpCt := &rlwe.Ciphertext{}
 			tmpCt.Value = []ring.Poly{eval.BuffQP[1].Q, eval.BuffQP[2].Q}
@@ -994,6 +996,14 @@ func (eval Evaluator) MulRelinScaleInvariantNew(op0 *rlwe.Ciphertext, op1 rlwe.O
 // tensorScaleInvariant computes (ct0 x ct1) * (t/Q) and stores the result in opOut.
 func (eval Evaluator) tensorScaleInvariant(ct0 *rlwe.Ciphertext, ct1 *rlwe.Element[ring.Poly], relin bool, opOut *rlwe.Ciphertext) (err error) {
 
+	// The relinearisation key is looked up before anything is written: a missing key must leave the receiver intact
+	var rlk *rlwe.RelinearizationKey
+	if relin {
+		if rlk, err = eval.CheckAndGetRelinearizationKey(); err != nil {
+			return fmt.Errorf("cannot TensorInvariant: %w", err)
+		}
+	}
+
 	level := opOut.Level()
 
 	levelQMul := eval.levelQMul[level]
@@ -1034,12 +1044,6 @@ func (eval Evaluator) tensorScaleInvariant(ct0 *rlwe.Ciphertext, ct1 *rlwe.Eleme
 	eval.quantize(level, levelQMul, tmp2Q0.Value[2], tmp2Q1.Value[2])
 
 	if relin {
-
-		var rlk *rlwe.RelinearizationKey
-
-		if rlk, err = eval.CheckAndGetRelinearizationKey(); err != nil {
-			return fmt.Errorf("cannot TensorInvariant: %w", err)
-		}
 
 		tmpCt := &rlwe.Ciphertext{}
 		tmpCt.Value = []ring.Poly{eval.BuffQP[1].Q, eval.BuffQP[2].Q}
@@ -1311,6 +1315,14 @@ func (eval Evaluator) MulRelinThenAdd(op0 *rlwe.Ciphertext, op1 rlwe.Operand, op
 
 func (eval Evaluator) mulRelinThenAdd(op0 *rlwe.Ciphertext, op1 *rlwe.Element[ring.Poly], relin bool, opOut *rlwe.Ciphertext) (err error) {
 
+	// The relinearisation key is looked up before anything is written: a missing key must leave the receiver intact
+	var rlk *rlwe.RelinearizationKey
+	if relin && op0.Degree() == 1 && op1.Degree() == 1 {
+		if rlk, err = eval.CheckAndGetRelinearizationKey(); err != nil {
+			return fmt.Errorf("cannot Relinearize: %w", err)
+		}
+	}
+
 	level := opOut.Level()
 
 	ringQ := eval.parameters.RingQ().AtLevel(level)
@@ -1367,12 +1379,6 @@ func (eval Evaluator) mulRelinThenAdd(op0 *rlwe.Ciphertext, op1 *rlwe.Element[ri
 		ringQ.MulCoeffsMontgomeryThenAdd(c01, tmp1.Value[0], c1) // c1 += c[1]*c[0]
 
 		if relin {
-
-			var rlk *rlwe.RelinearizationKey
-			var err error
-			if rlk, err = eval.CheckAndGetRelinearizationKey(); err != nil {
-				return fmt.Errorf("cannot Relinearize: %w", err)
-			}
 
 			ringQ.MulCoeffsMontgomery(c01, tmp1.Value[1], c2) // c2 += c[1]*c[1]
 
